@@ -56,11 +56,19 @@ class Env:
     def new(self):
         return self.cls(self.nx, self.pf, self.pi, self.fp)
 
-    def apply(self, obj, op):
+    def apply(self, obj, op, bufs=None):
+        """bufs: the caller keeps ONE time array per length (and one schedule array per length) and refills it in place before
+        each simulate call - the usual way of reusing a buffer; None: a fresh copy per call"""
+        def arr(src, kind):
+            if bufs is None:
+                return src.copy()
+            b = bufs.setdefault((kind, len(src)), np.empty(len(src)))
+            b[:] = src
+            return b
         if op[0] == 0:
-            return obj.simulate(GRIDS[op[1]].copy())
+            return obj.simulate(arr(GRIDS[op[1]], "t"))
         if op[0] == 1:
-            return obj.simulate(GRIDS[op[1]].copy(), self.scheds[op[2]].copy())
+            return obj.simulate(arr(GRIDS[op[1]], "t"), arr(self.scheds[op[2]], "s"))
         if op[0] == 2:
             return np.array(obj.recovery_factor(), float)
         if op[0] == 3:
@@ -91,14 +99,15 @@ class Env:
         return interpolate.interp1d(t, rec, bounds_error=False, fill_value=(0, rec[-1]))(QUERY)
 
 
-def run_history(env, h):
+def run_history(env, h, shared_buffers=False):
     obj = env.new()
     outs = []
+    bufs = {} if shared_buffers else None
     for op in h:
         try:
             with warnings.catch_warnings():
                 warnings.simplefilter("ignore")
-                outs.append(env.apply(obj, op))
+                outs.append(env.apply(obj, op, bufs))
         except RuntimeError:
             outs.append("RuntimeError")
         except Exception as e:  # noqa: BLE001
@@ -199,6 +208,7 @@ def run(ctx):
         if syms is None:
             return
         nviol = 0
+        nviol_b = 0
         for h, sym in zip(hs, syms):
             outs, state = run_history(env, h)
             msg = compare(env, h, sym, outs, state)
@@ -207,6 +217,16 @@ def run(ctx):
                 nviol += 1
                 ctx.violations.append(dict(what=f"{cls.__name__}: {msg}", key=cls.__name__ + msg[:40],
                                            input=dict(cls=cls.__name__, history=h), observed=msg))
+            # the same history with the caller reusing one time buffer (and one schedule buffer) per length, refilled in place
+            # before each simulate call: what is stored and returned must still be the latest simulation's
+            if sum(1 for op in h if op[0] <= 1) >= 2:
+                outs_b, state_b = run_history(env, h, shared_buffers=True)
+                msg_b = compare(env, h, sym, outs_b, state_b)
+                total += 1
+                if msg_b and nviol_b < 3:
+                    nviol_b += 1
+                    ctx.violations.append(dict(what=f"{cls.__name__} (caller refills and reuses the same time array between simulate calls): {msg_b}", key=cls.__name__ + "buf" + msg_b[:40],
+                                               input=dict(cls=cls.__name__, history=h, caller_reuses_buffers=True), observed=msg_b))
             # repeating the last call returns the same result
             if h[-1][0] >= 2:
                 o2, _ = run_history(env, h + [h[-1]])
